@@ -60,16 +60,35 @@ func startRaftNode(id uint64, nodeIds []uint64, storage wal.WAL, logger *log.Ent
 		Logger:          logger,
 	}
 
-	if len(nodeIds) > 0 {
+	fresh, err := isFreshStorage(storage)
+	if err != nil {
+		return nil, err
+	}
+
+	if len(nodeIds) > 0 && fresh {
 		var peers []etcdRaft.Peer
 		for _, nodeId := range nodeIds {
 			peers = append(peers, etcdRaft.Peer{ID: nodeId})
 		}
 		return etcdRaft.StartNode(raftConfig, peers), nil
 	} else {
-		// Allow the group to join existing cluster
+		// Allow the group to join existing cluster or resume from an existing log
 		return etcdRaft.RestartNode(raftConfig), nil
 	}
+}
+
+// A storage is fresh if nothing has ever been persisted to it. Only a fresh
+// storage may be bootstrapped; anything else has to resume from its log.
+func isFreshStorage(storage wal.WAL) (bool, error) {
+	hardState, _, err := storage.InitialState()
+	if err != nil {
+		return false, err
+	}
+	lastIndex, err := storage.LastIndex()
+	if err != nil {
+		return false, err
+	}
+	return etcdRaft.IsEmptyHardState(hardState) && lastIndex == 0, nil
 }
 
 func NewRaftGroup(id uuid.UUID, nodeIds []uint64, storage wal.WAL, transport *RaftTransport) (*RaftGroup, error) {
